@@ -140,6 +140,11 @@ class Operand(ABC):
         :param symbol_table: the symbol table to search
         :return: self, or a new Operand class type with a resolved value
         """
+        if self.is_unknown() and self.value.is_symbol() and self.value.ascii() in ("X", "Y", "U", "S") \
+                and self.value.ascii() not in symbol_table:
+            # A pointer register on its own is the zero offset form (LDB X is LDB ,X)
+            return IndexedOperand(",{}".format(self.value.ascii()), self.instruction)
+
         old_value = self.value
         self.value = self.value.resolve(symbol_table)
 
